@@ -9,7 +9,7 @@ import itertools
 import math
 
 from perception_eval.common.evaluation_task import EvaluationTask
-from perception_eval.common.label import AutowareLabel
+from perception_eval.common.label import AutowareLabel, TrafficLightLabel
 from perception_eval.evaluation.matching import (CenterDistanceMatching, IOU2dMatching, IOU3dMatching,
                                                  MatchingLabelPolicy, MatchingMode, PlaneDistanceMatching)
 from perception_eval.evaluation.result.object_result import get_object_results
@@ -197,6 +197,8 @@ def layer_b_units(tier):
 def layer_b_cases(unit, seed):
     est, gt = pools_b(seed)
     ego = G.ego_menu(seed)[1]
+    if unit.get("variant") == "dt":
+        est = [dict(s_, t=100 + 100000) for s_ in est]
     subs = subsets(len(est), unit["kmax"], unit["both"])
     for es in subs:
         for gs in subs:
@@ -239,20 +241,50 @@ RADII_C_INT = {"CENTERDISTANCE": [3, 2], "IOU2D": [0, 0]}
 
 
 def layer_c_units(tier):
-    return [dict(layer="C", kmax=2 if tier == "quick" else 3, mode=m, task=t, both=tier != "quick")
-            for m in ("CENTERDISTANCE", "IOU2D") for t in ("detection2d", "fp_validation2d")]
+    u = [dict(layer="C", kmax=2 if tier == "quick" else 3, mode=m, task=t, both=tier != "quick")
+         for m in ("CENTERDISTANCE", "IOU2D") for t in ("detection2d", "fp_validation2d")]
+    # variants: "pos" = the 2D objects also carry a 3D position (traffic lights do); "tlr" = traffic-light labels on ROI objects, with
+    # uuid_matching_first off and on (ROI objects are matched by their scores either way); "dt" (3D) = estimates stamped 100 ms after
+    # the ground truths they are evaluated against
+    for m in ("CENTERDISTANCE", "IOU2D"):
+        u.append(dict(layer="C", kmax=2, mode=m, task="detection2d", both=False, variant="pos"))
+        u.append(dict(layer="C", kmax=2, mode=m, task="detection2d", both=False, variant="tlr"))
+    for m in ("CENTERDISTANCE", "PLANEDISTANCE"):
+        u.append(dict(layer="B", kmax=2, mode=m, task="detection", policy="DEFAULT", both=False, variant="dt"))
+    return u
+
+
+def pools_tlr():
+    est = [dict(roi=[0, 0, 10, 10], label="GREEN"), dict(roi=[3, 3, 10, 4], label="RED"), dict(roi=[7, 0, 4, 10], label="UNKNOWN"),
+           dict(roi=[40, 40, 4, 4], label="GREEN"), dict(roi=[2, 1, 9, 9], label="UNKNOWN")]
+    gt = [dict(roi=[1, 0, 10, 10], label="GREEN"), dict(roi=[3, 2, 10, 5], label="RED"), dict(roi=[6, 0, 5, 10], label="RED"),
+          dict(roi=[0, 0, 10, 10], label="RED"), dict(roi=[41, 41, 4, 4], label="GREEN")]
+    for i, s in enumerate(est):
+        s.update(uuid="u%d" % i, score=round(0.95 - 0.07 * i, 3), cam="CAM_TRAFFIC_LIGHT", family="traffic_light")
+    for i, s in enumerate(gt):   # uuids shared with estimates of other positions: a uuid-driven matcher pairs differently
+        s.update(uuid="u%d" % ((i + 1) % 5), cam="CAM_TRAFFIC_LIGHT", family="traffic_light")
+    return est, gt
 
 
 def layer_c_cases(unit):
-    est, gt = pools_c()
+    var = unit.get("variant")
+    est, gt = pools_tlr() if var == "tlr" else pools_c()
+    if var == "pos":
+        est = [dict(s, pos=[1.0 + 0.1 * i, 0.2, 0.0]) for i, s in enumerate(est)]
+        gt = [dict(s, pos=[1.25 + 0.1 * j, 0.1, 0.0]) for j, s in enumerate(gt)]
     es_subs, gs_subs = subsets(len(est), min(2, unit["kmax"]), unit["both"]), subsets(len(gt), unit["kmax"], unit["both"])
     for es in es_subs:
         for gs in gs_subs:
             for pol in POLICIES:
-                for radii in (None, RADII_C[unit["mode"]], RADII_C_INT[unit["mode"]]):
-                    yield {"layer": "C", "dim": 2, "ests": [est[i] for i in es], "gts": [gt[j] for j in gs], "policy": pol,
-                           "radii": radii, "task": unit["task"], "mode": unit["mode"], "tl": TL,
-                           "warm": [[0.0, 0.0] if MAXIMIZE[unit["mode"]] else [500.0, 500.0]] + [r for r in (None, RADII_C[unit["mode"]]) if r != radii]}
+                for radii in ((None, RADII_C[unit["mode"]]) if var else (None, RADII_C[unit["mode"]], RADII_C_INT[unit["mode"]])):
+                    c = {"layer": "C", "dim": 2, "ests": [est[i] for i in es], "gts": [gt[j] for j in gs], "policy": pol,
+                         "radii": radii, "task": unit["task"], "mode": unit["mode"], "tl": ["GREEN", "RED"] if var == "tlr" else TL,
+                         "warm": [[0.0, 0.0] if MAXIMIZE[unit["mode"]] else [500.0, 500.0]] + [r for r in (None, RADII_C[unit["mode"]]) if r != radii]}
+                    if var == "tlr":
+                        for umf in (False, True):
+                            yield dict(c, family="traffic_light", umf=umf)
+                    else:
+                        yield c
 
 
 # ------------------------------------------------------------------------------------------------
@@ -376,9 +408,11 @@ def call(case, ests, gts, tf):
                                 F.pf_config(m.evaluator_config, [1.0, 1.0]))
         m.frame_results = []
         return fr.object_results
+    enum = TrafficLightLabel if case.get("family") == "traffic_light" else AutowareLabel
+    kw = {"uuid_matching_first": True} if case.get("umf") else {}
     return get_object_results(
-        EvaluationTask(case["task"]), ests, gts, [AutowareLabel[n] for n in case["tl"]],
-        MatchingLabelPolicy[case["policy"]], MatchingMode[case["mode"]], case["radii"], tf)
+        EvaluationTask(case["task"]), ests, gts, [enum[n] for n in case["tl"]],
+        MatchingLabelPolicy[case["policy"]], MatchingMode[case["mode"]], case["radii"], tf, **kw)
 
 
 def warm_up(case, ests, gts, tf):
